@@ -95,6 +95,11 @@ func c03Check(ctx *vfCtx, c c03Case) {
 		return
 	}
 	if err != nil {
+		if tr.Creators && p.Type == "m.room.create" && p.StateKey != nil && *p.StateKey != "" {
+			ctx.Class("v12-create-type-with-other-state-key(refused)")
+			ctx.Unjudged("v12: an m.room.create-typed event with a non-empty state key and a room ID is refused by Build")
+			return
+		}
 		ctx.Fail("C03/build-error", "EventBuilder.Build failed for a well-formed proto-event: %v", err)
 		return
 	}
